@@ -486,6 +486,8 @@ pub fn dump_crate<'tcx>(tcx: TyCtxt<'tcx>) -> J {
                 g = gg.parent.map(|p| tcx.generics_of(p));
             }
             o.push(("generics", J::A(gs)));
+            let preds = tcx.predicates_of(did).instantiate_identity(tcx);
+            o.push(("preds", J::A(preds.predicates.iter().map(|p| s(with_no_trimmed_paths!(p.skip_norm_wip().to_string()))).collect())));
         }
         o.extend(cx.body_json());
         // promoted bodies
